@@ -18,7 +18,7 @@ LEVEL = "exploration"
 RULE = (
     "one case per (history, prefix, probe): histories of 1-12 assemblies in one process (valid programs, programs failing in the scanner, "
     "parser, expansion, label pass and emission, .map programs, other ROM types, programs whose data ends with the last byte of a mapped region, programs that abandon an expression half-way, programs re-using the probes' macro/symbol/label/table/"
-    "file names with other contents, file-API and in-process CLI runs) followed after every prefix by 44 probes (LoROM, HiROM, low2, .map, "
+    "file names with other contents, file-API and in-process CLI runs) followed after every prefix by 47 probes (LoROM, HiROM, low2, .map, "
     "macros, tables, .incbin, -D, failing probes); each probe result (blocks, labels, root symbols, error kind and text with object "
     "addresses normalised) is compared with the same probe assembled alone in a fresh interpreter, and probes are repeated; batches of probes are also assembled on Program objects that were all constructed before the first of them ran; distinct by "
     "hash of (history prefix, probe); non-trivial = every comparison against a fresh-process baseline"
@@ -71,6 +71,10 @@ def fixed_probes() -> list[dict]:
         {"name": "reloc", "src": "*=0x008000\n@=0x7e0000\nram_code:\nlda.l ram_code\n*=0x018000\n.dl ram_code\n", "rom": None},
         {"name": "fail_deep_recursion", "src": "*=0x008000\n.macro cdown(pn) {\n.db pn & 0xff\n.if pn {\ncdown(pn - 1)\n}\n}\ncdown(600)\n", "rom": None},
         {"name": "fail_scan", "src": "*=0x008000\nlda.q 1\n", "rom": None},
+        # work RAM as the very first address an assembly asks for, under each stock mapping (bank 7E lies inside the bank numbers HiROM's ROM range spans)
+        {"name": "hirom_wram_first", "src": "*=0x7E2000\n.db 1, 2\nwram_l:\n.dl wram_l\n*=0x408000\n.db 3\n", "rom": "high"},
+        {"name": "lorom_wram_first", "src": "*=0x7F0010\n.db 1, 2\nwram_l:\n.dl wram_l\n", "rom": "low"},
+        {"name": "fail_hirom_branch_in_wram", "src": "*=0x7E2000\nloop_q:\nnop\nbra loop_q\n", "rom": "high"},
         {"name": "fail_unknown_directive_incsrc", "src": "*=0x008000\n.db 1\n.incsrc 'shared_inc.s'\n", "rom": None},
         {"name": "fail_unknown_directive_inclue", "src": "*=0x008000\n.inclue 'shared_inc.s'\n.db 1\n", "rom": None},
         {"name": "fail_unknown_directive_tabel", "src": "*=0x008000\n.tabel 'shared.tbl'\n.dbb 1\n", "rom": None},
